@@ -10,6 +10,7 @@ import (
 	"testing"
 
 	"github.com/cockroachdb/errors"
+	"github.com/cockroachdb/errors/errbase"
 	"github.com/cockroachdb/redact"
 	"pgregory.net/rapid"
 
@@ -138,6 +139,20 @@ func check(c *pbt.Case, r *pbt.R) {
 		if len(ev.Exception) != len(withStack) {
 			r.Failf("the number of exceptions differs from the number of layers with a stack", "exceptions %d, layers with stack %d\nspec %s", len(ev.Exception), len(withStack), c.Spec)
 			return
+		}
+		// (frame count against the program counters recorded locally)
+		local := obs.AllNodes(e0)
+		if len(local) == len(nodes) {
+			k := 0
+			for j, n := range nodes {
+				if errors.GetReportableStackTrace(n) == nil {
+					continue
+				}
+				if sp, ok := local[j].(errbase.StackTraceProvider); ok && ev.Exception[k].Stacktrace != nil && len(ev.Exception[k].Stacktrace.Frames) != len(sp.StackTrace()) {
+					r.Failf("an exception does not carry the frames of its layer's stack (outermost first)", "exception %d has %d frames, the layer recorded %d program counters\nspec %s", k, len(ev.Exception[k].Stacktrace.Frames), len(sp.StackTrace()), c.Spec)
+				}
+				k++
+			}
 		}
 		for i, n := range withStack {
 			st := errors.GetReportableStackTrace(n)
